@@ -151,22 +151,22 @@ claim("C25", "abstract execution of short_circuit_struct on model graphs; printe
 
 # ---- clauses added in the held-out round (wave 3, DESIGN section 13): appended to the claim texts ---------------------------
 WAVE3 = {
-    "C05": " Lookup helpers are judged on a bounded model (agstatic/dexsim.py) with same-named fields of different type and overloads; getters whose file value is masked/shifted are followed.",
+    "C05": " Lookup helpers are judged on a bounded model (agstatic/dexsim.py) with same-named fields of different type and overloads; getters whose file value is masked/shifted are followed. Optional sections: resolvers applied to offset 0 must answer None/[] when the section is absent from the map.",
     "C07": " The permutation simulation also runs for a file that ends exactly behind its map list, and for two constructions in one simulated process (class-level state shared).",
     "C09": " Every wrong-value family is also run after a valid file was constructed in the same interpreter (class-level state shared); the stream model serves any struct layout of the magic bytes: a magic byte that reaches no rejecting test is a finding.",
-    "C10": " The exception table is interpreted (determineException and EncodedCatchHandler executed): every try start, typed handler address and catch-all address must be a leader, incl. two try ranges sharing one handler list.",
+    "C10": " The exception table is interpreted (determineException and EncodedCatchHandler executed): every try start, typed handler address and catch-all address must be a leader, incl. two try ranges sharing one handler list. Concrete-label scenarios with targets inside an instruction or before offset 0.",
     "C11": " bisect-based block lookup is interpreted; a branch target before the first block must have no successor block.",
-    "C12": " handler-pairing: try items must report the handlers of the entry their handler_off refers to even when an earlier entry uses padded LEB128; a handler address inside an instruction must resolve to the containing block.",
-    "C13": " Scenario families added: rank-2 array receivers, code inside interface classes.",
-    "C14": " The real DEX.get_encoded_field_descriptor is executed on the model DEX (same-named fields of different type); a class with fields but no methods; truthiness through __len__/__bool__.",
+    "C12": " handler-pairing: try items must report the handlers of the entry their handler_off refers to even when an earlier entry uses padded LEB128; a handler address inside an instruction must resolve to the containing block. Catch-all handler at code address 0 (None vs 0).",
+    "C13": " Scenario families added: rank-2 array receivers, code inside interface classes. Directly recursive invokes.",
+    "C14": " The real DEX.get_encoded_field_descriptor is executed on the model DEX (same-named fields of different type); a class with fields but no methods; truthiness through __len__/__bool__. Two accessor methods with identical code (same field, same offsets).",
     "C15": " Raw vs hooked string lookup (rename hooks) is modelled; a const-string whose string id carries a hook.",
     "C16": " String tables per DEX and header items are modelled (equal SHA-1 fields are legal input).",
-    "C17": " rename-scenario: set_name executed end to end on a miniature ClassManager under four histories; aliasing-exposure separates eager re-resolution from lazy invalidation.",
+    "C17": " rename-scenario: set_name executed end to end on a miniature ClassManager under four histories; aliasing-exposure separates eager re-resolution from lazy invalidation. Two ClassManagers in one simulated process (class-level tables shared).",
     "C21": " Register operands carry the type the mnemonic fixes; new rule java-lexing (the printed text must lex into the tokens of its pieces by Java's longest-match rule); propagated constants also for unary ops.",
-    "C22": " process-history also covers containers owned by the DEX object model (getters returning their own list) that the decompiler mutates in place.",
-    "C24": " parameter-list: get_params_type evaluated on 27 prototype templates over representative names of the whole DEX SimpleName alphabet.",
+    "C22": " process-history also covers containers owned by the DEX object model (getters returning their own list) that the decompiler mutates in place. Class-/module-level iterator objects advanced by next() whose value is formatted into output.",
+    "C24": " parameter-list: get_params_type evaluated on 27 prototype templates over representative names of the whole DEX SimpleName alphabet. persistent-state: module-level memo tables are one object per evaluation; every descriptor class is re-evaluated from each table state the code can reach (grown, evicted).",
     "C25": " node-map: after every pass each node_map value must be a live node of the graph.",
-    "C29": " Tables whose back edge is taken more than once; the resources object is the repository's own ARSCParser over the abstract table (members without default-locale entry).",
+    "C29": " Tables whose back edge is taken more than once; the resources object is the repository's own ARSCParser over the abstract table (members without default-locale entry). history-independent: after resolve(start) every other id is resolved on the same parser and must still return all reachable values.",
     "C32": " find_certificate is interpreted on a symbolic certificate bag: a returned certificate must have compared equal to the sid in issuer and serial on that path.",
     "C33": " repeated-access: every accessor called again after the first parse must answer the same and store every pair once.",
     "C34": " get_file is run after another entry with equal metadata was read (keyed instance caches); dict-built listings are checked for key collisions on names enumerated from the selected language.",
@@ -175,7 +175,7 @@ WAVE3 = {
     "C37": " A containment check vouches only for the checked value (and joins below it); a suffix appended after a non-strict check is unchecked.",
     "C38": " str.translate tables and textual splits of the path are modelled; unmodelled string operations give exit 2, never a finding.",
     "C39": " Concrete grid of levels incl. negative requests; history rule: two calls on one interpreter (module-level state shared) in both orders.",
-    "C40": " History case: lookup, set_instructions with a permuted list, lookup again; offset clause also on the array/sequence/interface scenarios.",
+    "C40": " History case: lookup, set_instructions with a permuted list, lookup again; offset clause also on the array/sequence/interface scenarios. Payload placed before its referencing instruction (negative offset).",
 }
 
 # properties whose builder-written rule has been reviewed, is silent on the unchanged tree and passes its self-test
